@@ -9,6 +9,13 @@ Header: `script <i> c15json`.  Message text form, ops and monitor are those of `
 * `enc <msg>`        → `obs bytes <hex>` and `obs roundtrip <msg> <msg'|error|panic>`
 * `dec cm <hex|->`   → `obs msg <msg>` | `obs error` | `obs panic`      (read a `ClientMessage<String>`)
 * `dec rsp <hex|->`  → `obs msg <msg>` | `obs error`                    (read a `Response<String>`)
+* `dec-must cm|rsp <hex> [<msg>]` → as `dec`.  The document is one the property obliges the reader to
+  understand — a real encoding whose optional members (a cancellation's `trace_context`, a context's
+  `deadline`) may be left out, members reordered, insignificant whitespace added — and `<msg>`, if given, is
+  the message it stands for (defaults filled in: all-zero unsampled trace context, 10 s deadline).  The
+  monitor (`c15JsonMonOp` / `c15JsonMonStep`) fails with
+  `[C15] a well-formed message a peer may send was not understood: …` when the reader answers
+  `obs error` / `obs panic`, and when it answers with another message than `<msg>`.
 -/
 namespace TarpcModel.Driver.C15Json
 open TarpcModel.Bincode TarpcModel.Driver TarpcModel.Driver.C15Bin
@@ -16,7 +23,7 @@ open TarpcModel.Json (encodeJson encodeJsonResponse decodeJsonResponse decStrBod
 
 def readCm (bs : Bytes) : Outcome (ClientMessage String) := TarpcModel.Json.readClientMessage decStrBody bs
 
-def step (toks : List String) : List String :=
+def stepDec (toks : List String) : List String :=
   match toks with
   | ["enc", tok] =>
     match parseClientMessage strBody tok with
@@ -49,18 +56,58 @@ def step (toks : List String) : List String :=
     | none => ["bad-op"]
   | _ => ["bad-op"]
 
+/-- `dec-must` is `dec` for the model: the obligation is the monitor's business. -/
+def step (toks : List String) : List String :=
+  match toks with
+  | ["dec-must", k, h] => stepDec ["dec", k, h]
+  | ["dec-must", k, h, _] => stepDec ["dec", k, h]
+  | _ => stepDec toks
+
 end TarpcModel.Driver.C15Json
 
 namespace TarpcModel.Driver
 open C15Bin
 
+/-- Printable form of a document for a verdict text. -/
+def c15ShowDoc (h : String) : String :=
+  match parseHexTok h with
+  | some bs => String.ofList (bs.flatMap fun b =>
+      if 0x20 ≤ b.toNat ∧ b.toNat < 0x7f then [Char.ofNat b.toNat]
+      else ['\\', 'x', hexChar (b.toNat / 16), hexChar (b.toNat % 16)])
+  | none => h
+
+/-- Monitor of `c15json`: the round-trip rule of `c15bin`, plus the obligation attached to `dec-must` ops. -/
+structure C15JsonMon where
+  base : C15Mon := {}
+  /-- the pending `dec-must`: (`cm`/`rsp`, document, expected message) -/
+  must : Option (String × String × Option String) := none
+
+def c15JsonMonOp (m : C15JsonMon) (toks : List String) : C15JsonMon :=
+  match toks with
+  | ["dec-must", k, h] => { m with must := some (k, h, none) }
+  | ["dec-must", k, h, e] => { m with must := some (k, h, some e) }
+  | _ => { m with must := none }
+
+def c15JsonMonStep (m : C15JsonMon) (toks : List String) : C15JsonMon :=
+  if !m.base.ok then m else
+  match m.must, toks with
+  | some (k, h, _), ["error"] =>
+    { m with base := { ok := false, why := s!"[C15] a well-formed message a peer may send was not understood: {k} {c15ShowDoc h} -> error" } }
+  | some (k, h, _), ["panic"] =>
+    { m with base := { ok := false, why := s!"[C15] a well-formed message a peer may send was not understood: {k} {c15ShowDoc h} -> panic" } }
+  | some (k, h, some e), ["msg", x] =>
+    if x = e then m
+    else { m with base := { ok := false, why := s!"[C15] a well-formed message a peer may send was not understood: {k} {c15ShowDoc h} stands for {e}, read as {x}" } }
+  | _, _ => { m with base := c15MonStep m.base toks }
+
 def c15json : Family where
   σ := Unit
-  μ := C15Mon
+  μ := C15JsonMon
   init _ := ()
   step s toks := (s, C15Json.step toks)
   monInit _ := {}
-  monStep := c15MonStep
-  monVerdict m := if m.ok then none else some m.why
+  monStep := c15JsonMonStep
+  monOp := c15JsonMonOp
+  monVerdict m := if m.base.ok then none else some m.base.why
 
 end TarpcModel.Driver
